@@ -144,3 +144,23 @@ check(
     level_note="trusted: the adapters that slice the stream; comparison tolerance 1e-12 relative (bitwise disagreement is counted separately)",
     assumptions=["parameter grid as listed in harness/C06_framing.cpp; FftFilter is compared as concatenated output (its per-call count depends on block alignment)"],
 )
+
+check(
+    "C07",
+    runs=[dict(harness="C07_fir", flavour="plain")],
+    rule=("FirFilter and FftFilter (real, complex) from rest for coefficient lengths 2..64, every FFT block boundary (2^k-2..2^k+2, k=7..10) "
+          "and sampled lengths to 1024, coefficient kinds {random, symmetric, sparse, single tap first/last}, input lengths around the block "
+          "size and long inputs (2e4 quick / 1e5 thorough) with random, impulsive and 1e+-12 dynamic range content, against the long-double "
+          "sum y[i]=sum conj(c[k]) x[i-k] (direct: max(8,m+4)*eps*sum|c||x| per sample; FFT: 64*eps*log2(fftlen)*sum|c|*max|x|), emitted count "
+          "floor(len/block)*block and FftFilter == FirFilter on the emitted prefix; xcorr for all (n1,n2) in 1..48^2 real and complex plus "
+          "sampled pairs to 5000, every lag; MAFilter vs FirFilter(ones(n)/n) and vs a long-double running mean. distinct = hash of "
+          "(configuration, coefficient and input bits)."),
+    exhaustive_subspaces={"quick": ["xcorr: all length pairs (n1,n2) in 1..48 x 1..48, real and complex"],
+                          "thorough": ["xcorr: all length pairs (n1,n2) in 1..48 x 1..48, real and complex"]},
+    min_distinct={"quick": 5000, "thorough": 8000},
+    technique="runtime monitor: long-double evaluation of the defining convolution / correlation sums as oracle, direct-vs-FFT differential",
+    level_text=("Filters and correlations are executed over the stated grid and each output sample is compared with the defining sum in "
+                "extended precision with a rounding-error-model tolerance; held on the evaluations in the evidence."),
+    level_note="trusted: long double reference sums; tolerances derived from the rounding analysis of the definitions (margins recorded in the evidence)",
+    assumptions=["coefficient vectors of length 1 are outside the quantifier (2..1024)"],
+)
